@@ -23,6 +23,7 @@ from .values import (
     JS_WHITESPACE,
     to_string,
     to_number,
+    to_boolean,
     to_integer_or_infinity,
 )
 from .errors import (
@@ -110,9 +111,11 @@ class Context:
 
         # Math object
         self._globals["Math"] = self._create_math_object()
+        self._globals["Math"].hide_all()
 
         # JSON object
         self._globals["JSON"] = self._create_json_object()
+        self._globals["JSON"].hide_all()
 
         # Number constructor and methods
         self._globals["Number"] = self._create_number_constructor()
@@ -387,6 +390,11 @@ class Context:
             prop_name = to_string(prop)
 
             if isinstance(descriptor, JSObject):
+                existed = (
+                    obj.has(prop_name)
+                    or prop_name in obj._getters
+                    or prop_name in obj._setters
+                )
                 # Check for getter/setter
                 getter = descriptor.get("get")
                 setter = descriptor.get("set")
@@ -400,12 +408,22 @@ class Context:
                 # kind replaces an existing property of the other kind
                 if getter is UNDEFINED and setter is UNDEFINED:
                     value = descriptor.get("value")
-                    if value is not UNDEFINED:
+                    if value is not UNDEFINED or not existed:
                         obj._getters.pop(prop_name, None)
                         obj._setters.pop(prop_name, None)
                         obj.set(prop_name, value)
                 else:
                     obj._properties.pop(prop_name, None)
+
+                # enumerable: as given; a property created here without it is not
+                enumerable = descriptor.get("enumerable")
+                if enumerable is not UNDEFINED:
+                    if to_boolean(enumerable):
+                        obj.unhide(prop_name)
+                    else:
+                        obj.hide(prop_name)
+                elif not existed:
+                    obj.hide(prop_name)
 
             return obj
 
@@ -468,7 +486,7 @@ class Context:
                 descriptor.set("value", obj.get(prop_name))
                 descriptor.set("writable", True)
 
-            descriptor.set("enumerable", True)
+            descriptor.set("enumerable", obj.is_enumerable(prop_name))
             descriptor.set("configurable", True)
 
             return descriptor
@@ -603,12 +621,14 @@ class Context:
             err.set("stack", "")  # Stack trace placeholder
             err.set("lineNumber", UNDEFINED)  # Will be set when error is thrown
             err.set("columnNumber", UNDEFINED)  # Will be set when error is thrown
+            err.hide_all()  # like message and stack in other engines: not enumerable
             return err
 
         constructor = JSCallableObject(error_constructor)
         constructor._name = error_name
 
         error_prototype.set("constructor", constructor)
+        error_prototype.hide_all()
         constructor.set("prototype", error_prototype)
 
         return constructor
